@@ -63,6 +63,12 @@ Value(m) == [f \in DOMAIN Schema |->
                LET vals == FieldVals(m, f) IN
                [i \in 1..Len(vals) |-> IF Scalar(f) THEN vals[i] ELSE IF vals[i].t = "msg" THEN [t |-> "msg", val |-> Value(vals[i].m)] ELSE vals[i]]]
 
+(* Spelling. Every varint on the wire — a tag, a length prefix, a varint value (plain or inside a packed chunk) — may be written   *)
+(* with redundant continuation bytes (0x80 .. 0x00); decoders accept it. The abstract serialisation, hence Valid, Value and       *)
+(* Canonical, do not depend on the spelling: the canonical bytes are the MINIMAL spelling of Canonical(m). A table case is a      *)
+(* pair (m, spelling); the harness writes m in that spelling and expects the same canonical bytes as for the minimal one.         *)
+Spellings == {"min", "padvalues", "padtags", "padlens", "padall"}
+
 (* Properties *)
 CanonIsSer(m) == Valid(m) => (Valid(Canonical(m)) /\ Value(Canonical(m)) = Value(m))
 CanonIdem(m) == Valid(m) => Canonical(Canonical(m)) = Canonical(m)
